@@ -231,6 +231,9 @@ class Value(ABC):
         """
         original_value = value
 
+        if not value:
+            raise ValueTypeError("[{}] is an invalid value".format(original_value))
+
         if instruction and instruction.is_string_define:
             try:
                 return StringValue(value)
